@@ -222,8 +222,11 @@ class Outcome:
             self.samples.append(s)
 
     def fail(self, kind, clause, case, expected=None, observed=None, note=''):
-        if len(self.failures) < 200:
+        # cap per (kind, clause, note) so that a frequent known finding cannot crowd out anything else
+        key = f'fail:{kind}:{clause}:{note[:40]}'
+        if self.branches.get(key, 0) < 40:
             self.failures.append(Failure(kind, clause, jsonable(case), jsonable(expected), jsonable(observed), note))
+        self.count(key)
         self.count('failures')
 
     def merge(self, other: 'Outcome'):
